@@ -191,6 +191,38 @@ theorem mem_erase {α : Type} {m : SMap α} {k : Nat} {p : Nat × α} (h : p ∈
       · exact List.mem_cons_of_mem _ (ih h)
 
 
+theorem find_insert_ne {α : Type} (m : SMap α) (k j : Nat) (v : α) (h : j ≠ k) :
+    SMap.find? (SMap.insert m k v) j = SMap.find? m j := by
+  induction m with
+  | nil => simp [SMap.insert, SMap.find?, Ne.symm h]
+  | cons p r ih =>
+    obtain ⟨k', v'⟩ := p
+    simp only [SMap.insert]
+    by_cases h1 : k < k'
+    · simp [h1, SMap.find?, Ne.symm h]
+    · by_cases h2 : k = k'
+      · subst h2; simp [SMap.find?, Ne.symm h]
+      · simp only [h1, h2, if_false, SMap.find?]
+        by_cases h3 : k' = j
+        · simp [h3]
+        · simp [h3, ih]
+
+/-- a table built by inserting `g c` at key `f c` for the elements of a list: an unbound key is one that is neither
+    bound at the start nor the key of an element -/
+theorem find_foldl_insert_none {α β : Type} (f : β → Nat) (g : β → α) (l : List β) (m0 : SMap α) (j : Nat) :
+    SMap.find? (l.foldl (fun m c => SMap.insert m (f c) (g c)) m0) j = none ↔ SMap.find? m0 j = none ∧ j ∉ l.map f := by
+  induction l generalizing m0 with
+  | nil => simp
+  | cons c r ih =>
+    simp only [List.foldl_cons, List.map_cons, List.mem_cons, not_or]
+    rw [ih]
+    by_cases h : j = f c
+    · subst h; simp [find_insert]
+    · rw [find_insert_ne _ _ _ _ h]
+      constructor
+      · rintro ⟨a, b⟩; exact ⟨a, h, b⟩
+      · rintro ⟨a, _, b⟩; exact ⟨a, b⟩
+
 /-! ### value maps -/
 
 /-- a table with its values mapped (`Bytes` ↦ `List Nat`, model entry ↦ generated entry) -/
